@@ -70,7 +70,9 @@ OPQ = {
                       extra=["zs:", "  option_name: zs", "  tip: char", "  excluded_types: [vt]",
                              "ztw:", "  option_name: ztw", "  opencc_config: s2twp.json", "  tips: none", "  inherit_comment: true"]),
     # charset_filter as a filter of its own (off when `extended_charset` is on), ahead of a simplifier and the uniquifier
-    "c04_charset": dict(ps=4, trs=["a", "b"], filters=["charset_filter", "simplifier", "uniquifier"], cycle=0,
+    # (the prescription must be written `charset_filter@`: the basic filter only works with an EMPTY name space, and a plain
+    # `charset_filter` gets the name space "filter" — CharsetFilter::Apply then logs an error and filters nothing)
+    "c04_charset": dict(ps=4, trs=["a", "b"], filters=["charset_filter@", "simplifier", "uniquifier"], cycle=0,
                         options=["extended_charset", "simplification"], extra=["simplifier:", "  tips: all"]),
 }
 # echo_translator behind a table-driven translator and NO filter (nothing between the merged translation and the menu): its
@@ -87,6 +89,8 @@ OPQ["c04_punct"] = dict(ps=3, trs=["a"], translators=["punct_translator", "c04_t
                                "    '/': ['、', '/', '、', '÷', '/']", "    ';': ['；', ';', '；', '︔', '；', '﹔', ';', '⁏', '؛']",
                                "    '$': ['￥', '￥']", "    ',': '，'", "  full_shape:", "    '/': ['／', '÷', '／']",
                                "    ';': ['；', '；', '；']", "    '$': ['＄', '￥', '$', '＄']"])
+# the basic charset filter alone, directly on the merged translation (nothing behind it that would hide how it reports its end)
+OPQ["c04_charset0"] = dict(ps=4, trs=["a", "b"], filters=["charset_filter@"], cycle=1, options=["extended_charset"], extra=[])
 LAYOUT_OPTS = ["_vertical", "_linear", "_horizontal"]
 
 
@@ -935,17 +939,26 @@ def run(c):
         rows = gen_rows(c.rng, TEXTS_X)
         cases = []
         if t == 0:
-            # directed: whole pages of kept candidates followed by a tail the charset filter removes (the page before the
-            # tail is the last one) — `ccc` yields 4 kept, 2 removed, 8 kept, 1 removed; `cc` 8 kept, 1 removed
+            # directed: whole pages of kept candidates (page size 4) with removed ones at the very start, in the middle and —
+            # one to three of them — at the very end (the page before that tail is the last one):
+            # `c` = R k k k k R R R; `cc` = k k R k k R R + the list of `c`; `ccc` = k k k k R + the list of `cc`
             for ns in rows:
                 for k in ("c", "cc", "ccc"):
                     rows[ns].pop(k, None)
             plain = ["一", "二", "三", "四", "五", "六", "七", "八", "九", "十", "百", "千"]
-            rows["a"]["ccc"] = [(x, "d", 0, "t") for x in plain[:4]] + [("𠀀", "d", 0, "t"), ("㐀", "", 0, "s")]
-            rows["a"]["cc"] = [(x, "d", 0, "t") for x in plain[4:]] + [("丽", "d", 0, "t")]
-            for inp in ("ccc", "cc"):
-                for ext in (0, 1):
-                    cases.append(Case("c04_charset", [("extended_charset", ext), ("simplification", 0)], inp, "keys", rows_id="x0"))
+            K = lambda xs: [(x, "d", 0, "t") for x in xs]
+            R = lambda xs: [(x, "", 0, "s") for x in xs]
+            rows["a"]["c"] = R(["𠀀"]) + K(plain[:4]) + R(["㐀", "丽", "䶿"])
+            rows["a"]["cc"] = K(plain[4:6]) + R(["㏿"]) + K(plain[6:8]) + R(["豈", "𪜀"])
+            rows["a"]["ccc"] = K(plain[8:]) + R(["𫝀"])
+            # (the filter alone first: behind a uniquifier a filter that misreports its end can take the whole run down)
+            for sid0 in ("c04_charset0", "c04_charset"):
+                for inp in ("ccc", "cc", "c"):
+                    for ext in (0, 1):
+                        if sid0 == "c04_charset0":
+                            cases.append(Case(sid0, [("extended_charset", ext)] + layout_opts(c.rng), inp, c.rng.choice(["keys", "set"]), rows_id="x0"))
+                        else:
+                            cases.append(Case(sid0, [("extended_charset", ext), ("simplification", 0)], inp, "keys", rows_id="x0"))
         if t == 0:
             # directed: lists of exactly 1, 2, 3 and 4 whole pages (page size 3) in the schemas with echo_translator
             # (the echoed input itself is never elected while another translation has candidates: EchoTranslation::Compare)
